@@ -8,6 +8,9 @@ CLAIMED = {
  "C01": ("exploration", "property-based testing (Hypothesis) over an operator/efun/frame matrix with boundary-value pool, crash oracle under ASan+UBSan in forked driver children",
          "Generated LPC programs apply every operator, index/range/lvalue form and every efun of the generated efun table to boundary values of every runtime type through five frame kinds; each runs in a forked in-process driver under ASan+UBSan; any sanitizer report, signal, exit()/fatal() or pc outside the bytecode is a violation. Sampled, not exhaustive.",
          "Trusts ASan/UBSan to expose memory errors (over-reads inside one malloc block are invisible); shutdown() excluded; timeouts are inconclusive."),
+ "C03": ("exploration", "property-based differential testing (Hypothesis): typed LPC program grammar vs independent reference evaluator, plus metamorphic sibling spellings",
+         "Programs from a typed expression/statement grammar over the language core are rendered in up to 11 equivalent spellings (run-time args vs literals vs macros, op= vs expanded, ++ vs +1, switch vs if-chain, for vs while, local vs global, typed vs mixed, direct vs function-pointer vs call_other calls); all spellings run in one forked driver and must agree with each other and with a Python reference evaluator written from the manual. Sampled, bounded program size.",
+         "Reference evaluator is trusted for the core it covers; computations it leaves undefined (INT64_MIN/-1, shift counts outside 0..63, negative range indexes, s[strlen(s)], sign of zero, resource-limit hits, compile-time rejection of constant division/index) are discarded and counted; differing error classes between two possible error sites are accepted (evaluation order)."),
 }
 NA_REASON = "check not yet built in this session (machinery under construction; see DESIGN.md section 4 for the planned check)"
 
